@@ -25,7 +25,9 @@ declare_fields(
 FIELD_ALIAS.update(output='_output', etype='_etype')
 
 # what the synchronous delivery of events may change (outputs of other blocks, their event guards, the changed-block queue)
-DELIVERY = ('_output', '_event_active', 'q_set')
+# The event guards (_event_active) are not in this set: every completed event() call leaves all guards as it found
+# them (postcondition `guards_balanced` of SBlock.event, C11), so delivery as a whole does not change them.
+DELIVERY = ('_output', 'q_set')
 
 
 # ------------------------------------------------------------------------------------------ spec functions
@@ -55,9 +57,29 @@ def set_output_result(p, v):
 # A-C02: while the output events of this assignment are delivered, nobody re-assigns this block's output.
 def queues_only_grow(S, T):
     """guarantee of everything that runs during event delivery: blocks are only added to the changed-block queues
-    (they are taken out only by the simulator task: scan obligation `queue_consumers`, C01)"""
+    (they are taken out only by the simulator task: scan obligation `queue_consumers`, C01).
+    As a hypothesis it is imposed constructively (the post-state queue map *is* the old one united with an arbitrary
+    set) so that no quantifier enters the obligations; as a goal it is the plain universally quantified statement."""
     qx, bx = Int('q!g'), Int('b!g')
     return ForAll([qx, bx], Implies(S.whole('q_set')[qx][bx], T.whole('q_set')[qx][bx]))
+
+
+def impose_queues_only_grow(S, T):
+    """make T's queue map `S's queue map, plus anything` (T's q_set component must have been havocked before)"""
+    qx, bx = Int('q!g'), Int('b!g')
+    add = fresh('q_added', ArraySort(IntSort(), RefSet))
+    old = S.whole('q_set')
+    T.st.heap['q_set'] = z3.Lambda([qx], z3.Lambda([bx], Or(old[qx][bx], add[qx][bx])))
+    return []
+
+
+def impose_error_write_once(S, T):
+    """make T's _error map `S's, where an error was recorded; anything elsewhere` (invariant W of C09)"""
+    cx = Int('c!w')
+    new = fresh('err_new', ArraySort(IntSort(), Val))
+    old = S.whole('_error')
+    T.st.heap['_error'] = z3.Lambda([cx], If(old[cx] != Val.VNone, old[cx], new[cx]))
+    return []
 
 
 def output_event_data(p, v):
@@ -174,8 +196,12 @@ def pack_args(st, pos, named):
 
 def user_call(ex, st, f, pos, named, stars, sargs, node):
     from pyvc.engine import Raise
-    if stars or sargs: raise Unsupported('*/** arguments to a user callable')
-    fv, a = to_val(f, st), pack_args(st, pos, named)
+    fv = to_val(f, st)
+    if stars or sargs:
+        if pos or named or len(sargs) > 1 or len(stars) > 1: raise Unsupported('mixed */** arguments to a user callable')
+        a = to_val(PTuple(([sargs[0]] if sargs else [PTuple([])]) + ([PDict(ex.as_dict(st, stars[0]))] if stars else [])), st)
+    else:
+        a = pack_args(st, pos, named)
     outs = []
     ok = st.copy(); ok.assume(Not(app_raises(fv, a))); ex.emit(ok, rec('usercall', fv, a))
     if ex.feasible(ok): outs.append((ok, ZV('val', app(fv, a))))
@@ -196,8 +222,8 @@ def event_iface(c):
     # the value returned by the handler: an uninterpreted function of destination, event type, delivered data and the
     # position of the call in the activation (so that a caller can say "returns the handler's result")
     c.returns(ZV('val', evres(Val.Obj(c.z('self')), c.v('etype'), mkD(c.arg('data').arr), c.S.tn)))
-    c.ensures('queues_only_grow', queues_only_grow(c.S, c.T))
-    c.raises('DeliveryError', unchanged=False, ensures=lambda post, exc: [queues_only_grow(c.S, post)])
+    impose_queues_only_grow(c.S, c.T)
+    c.raises('DeliveryError', unchanged=False, ensures=lambda post, exc: impose_queues_only_grow(c.S, post))
 
 
 evres = Function('evres', Val, Val, IntSort(), IntSort(), Val)
@@ -216,3 +242,16 @@ def _task_done(c):
 @contract('*.cancelled', modifies=(), result=BOOL, sig=([_P('self', Ref())], None, None), trusted='asyncio.Task.cancelled')
 def _task_cancelled(c):
     c.returns(ZV('bool', c.pre('task_cancelled', c.z('self'))))
+
+
+# ------------------------------------------------------------------------------------------ await (DESIGN 2.7)
+def awaits(table):
+    """await hook: each awaited expression (keyed by its source text, '*' = default) is given by a handler
+    (ex, awaited_expr_node, state) -> outcomes that performs the environment step and returns the result(s)"""
+    import ast as _ast
+    def hook(ex, e, st):
+        txt = _ast.unparse(e.value)
+        h = table.get(txt) or table.get('*')
+        if h is None: raise Unsupported(f'await {txt}: no rely/guarantee contract given')
+        return h(ex, e.value, st)
+    return hook
